@@ -150,6 +150,15 @@ def paths_of(fn: FunctionInfo, limit: int = 64) -> list[Path]:
     return done
 
 
+def unread(p: Path) -> str | None:
+    """why the inlined return expression of a path is not the whole story: statements outside the vocabulary, or writes into a buffer"""
+    if p.opaque:
+        return "statements outside the vocabulary (" + ", ".join(sorted(set(p.opaque))) + ")"
+    if p.effects:
+        return f"item assignment into `{p.effects[0][0]}` (line {p.effects[0][4]})"
+    return None
+
+
 def call_name(e: ast.AST) -> str:
     if isinstance(e, ast.Call):
         f = e.func
@@ -329,6 +338,9 @@ def rule_trans_scal(run: Run, prog: Program) -> int:
             if p.ret is None:
                 continue
             n += 1
+            if unread(p):
+                run.add("E18.trans", fn.short, "offset", UNDECIDED, unread(p), fn.loc)
+                continue
             call = _affine_call(p.ret)
             if call is None or var is None:
                 run.add("E18.trans", fn.short, "offset", UNDECIDED, "translation does not return one affine_transform(...) call over *coordinates", fn.loc)
@@ -361,6 +373,9 @@ def rule_trans_scal(run: Run, prog: Program) -> int:
             if p.ret is None:
                 continue
             n += 1
+            if unread(p):
+                run.add("E18.trans", fn.short, "matrix", UNDECIDED, unread(p), fn.loc)
+                continue
             call = _affine_call(p.ret)
             loc = f"{fn.module.rel}:{fn.node.lineno}"
             if call is None or var is None:
@@ -490,6 +505,9 @@ def rule_rotation(run: Run, prog: Program) -> int:
         loc = f"{fn.module.rel}:{p.ret.lineno if hasattr(p.ret, 'lineno') else fn.node.lineno}"
         label = "rotation of the plane" if planar else "rotation about an axis"
         n += 1
+        if unread(p):
+            run.add("E18.rot", fn.short, label, UNDECIDED, unread(p), loc)
+            continue
         if call is None:
             run.add("E18.rot", fn.short, label, UNDECIDED, "the path does not return one affine_transform(...) call", loc)
             continue
@@ -552,6 +570,9 @@ def rule_reflection(run: Run, prog: Program) -> int:
             continue  # the mirror at infinity returns the identity
         n += 1
         loc = f"{fn.module.rel}:{call.lineno if hasattr(call, 'lineno') else fn.node.lineno}"
+        if unread(p):
+            run.add("E18.refl", fn.short, "Householder matrix", UNDECIDED, unread(p), loc)
+            continue
         matrix, _offset = _affine_args(call)
         forms = _Forms(None)
         try:
@@ -842,8 +863,8 @@ def rule_frame(run: Run, prog: Program) -> int:
             continue
         n += 1
         loc = f"{fn.module.rel}:{fn.node.lineno}"
-        if var is None or p.opaque:
-            run.add("E18.frame", fn.short, "frame", UNDECIDED, "from_points no longer is straight-line code over *args", loc)
+        if var is None or unread(p):
+            run.add("E18.frame", fn.short, "frame", UNDECIDED, f"from_points no longer is straight-line code over *args: {unread(p)}", loc)
             continue
         fr = _Frame(var)
         try:
@@ -926,21 +947,6 @@ def rule_conics_delegate(run: Run, prog: Program) -> int:
     return n
 
 
-def _zero_mod(e: LP, rules: dict) -> bool:
-    """e == 0 modulo the relations atom**p = value: negative powers of the atoms are cleared first (the atoms are non-zero: norms, cosines)"""
-    for _ in range(4):
-        for atom in rules:
-            worst = 0
-            for mono in e.t:
-                for s_, ex in mono:
-                    if s_ == atom and ex < worst:
-                        worst = ex
-            if worst < 0:
-                e = e * LP.sym(atom).power(int(-worst))
-        e = e.rewrite(rules)
-    return e.is_zero()
-
-
 def rule_orthogonal(run: Run, prog: Program) -> int:
     run.rule("E18.orth", "rotation(angle, axis), when its matrix can be read as a 3x3 table of polynomials in cos / sin of multiples of the angle and the axis "
                          "coordinates: R^T R = I, det R = 1 and R a = a as polynomial identities modulo cos^2 + sin^2 = 1 and |a|^2 = norm(a)^2 - the first "
@@ -961,59 +967,9 @@ def rule_orthogonal(run: Run, prog: Program) -> int:
         captured["offset"] = args[1] if len(args) > 1 else kwargs.get("offset")
         return qf.Opaque("transformation")
 
-    # the cross-product matrix written as a tensor diagram: every edge (Tensor(v), eps) contracts v with the next index of the Levi-Civita tensor
-    # (what an edge contracts is decided by E14; the entries of eps are the permutation signs)
-    class Eps(qf.SymObject):
-        def __init__(self, n):
-            self.n = n
-
-    class Vec(qf.SymObject):
-        def __init__(self, table):
-            self.array = table
-
-    class Diagram(qf.SymObject):
-        def __init__(self, edges):
-            self.edges = edges
-
-        def calculate(self):
-            eps = next((b for a_, b in self.edges if isinstance(b, Eps)), None)
-            vecs = [a_.array for a_, b in self.edges if isinstance(a_, Vec) and b is eps]
-            if eps is None or len(vecs) != len(self.edges) or any(v.shape != (eps.n,) for v in vecs):
-                raise qf.Unknown("diagram is not vectors contracted with one Levi-Civita tensor")
-            n, k = eps.n, len(vecs)
-            if k > n or n > 5:
-                raise qf.Unknown("more vectors than indices of the Levi-Civita tensor")
-            import itertools as _it
-
-            def sign(perm):
-                return -1 if sum(1 for i in range(len(perm)) for j in range(i + 1, len(perm)) if perm[i] > perm[j]) % 2 else 1
-            data = {}
-            for free in _it.product(range(n), repeat=n - k):
-                total = LP()
-                for bound in _it.product(range(n), repeat=k):
-                    idx = bound + free
-                    if len(set(idx)) != n:
-                        continue
-                    term = LP.const(sign(idx))
-                    for v, i in zip(vecs, bound):
-                        term = term * v.data[(i,)]
-                    total = total + term
-                data[free] = total
-            return Vec(qf.Table((n,) * (n - k), data))
-
-    def tensor_hook(args, kwargs):
-        return Vec(args[0]) if args and isinstance(args[0], qf.Table) else qf.Opaque("tensor")
-
-    def eps_hook(args, kwargs):
-        return Eps(args[0]) if args and isinstance(args[0], int) else qf.Opaque("eps")
-
-    def diagram_hook(args, kwargs):
-        edges = [tuple(a_) for a_ in args if isinstance(a_, (list, tuple)) and len(a_) == 2]
-        return Diagram(edges) if len(edges) == len(args) and edges else qf.Opaque("diagram")
-
     it = qf.Interp(prog, None, {})
     it.trig = True
-    it.hooks = {"affine_transform": affine, "Tensor": tensor_hook, "LeviCivitaTensor": eps_hook, "TensorDiagram": diagram_hook}
+    it.hooks = {**qf.library_hooks(it), "affine_transform": affine}
     env = {params[0]: LP.sym("angle"), params[1]: qf.PointSym("a", 3)}
     loc = fn.loc
     try:
@@ -1041,16 +997,16 @@ def rule_orthogonal(run: Run, prog: Program) -> int:
                     e = e + m.data[(k, i)] * m.data[(k, j)]
                 if i == j:
                     e = e - LP.const(1)
-                if not _zero_mod(e, rules):
+                if not qf.zero_mod(e, rules):
                     problems.append(f"(R^T R)[{i}][{j}] is not {1 if i == j else 0}")
         axis_vec = [LP.sym(f"a{i}") for i in range(3)]
         for i in range(3):
             e = -axis_vec[i]
             for k in range(3):
                 e = e + m.data[(i, k)] * axis_vec[k]
-            if not _zero_mod(e, rules):
+            if not qf.zero_mod(e, rules):
                 problems.append(f"(R a)[{i}] is not a[{i}]: the axis is not fixed")
-        if not problems and not _zero_mod(qf._det_table(m) - LP.const(1), rules):
+        if not problems and not qf.zero_mod(qf._det_table(m) - LP.const(1), rules):
             problems.append("det R is not 1")
     except (qf.Unknown, NotPolynomial) as ex:
         run.add("E18.orth", fn.short, "orthogonal, determinant 1, fixes the axis", UNDECIDED, f"not read: {str(ex)[:100]}", loc)
